@@ -33,7 +33,8 @@ SRC_KINDS = ['gen', 'agen', 'rx3', 'rx4', 'rx3bp', 'rx4bp']
 def any_src(frag):
     lib = st.fixed_dictionaries({'kind': st.sampled_from(SRC_KINDS), 'els': st.lists(gen.nonempty_lens(frag, 2), max_size=8),
                                  'end': st.sampled_from(['flag', 'sep']), 'awaits': st.integers(0, 2)})
-    return st.one_of(gen.manual_src(frag, ends=('flag', 'sep'), max_frags=3), lib, lib)
+    # (a manual publisher may also fail: an ERROR that reaches a subscriber which has already cancelled must not be delivered)
+    return st.one_of(gen.manual_src(frag, ends=('flag', 'sep', 'error'), max_frags=3), lib, lib)
 
 
 @st.composite
@@ -81,6 +82,10 @@ def programs(draw):
         # cancel while elements are in flight
         st.integers(0, 3).map(lambda i: [('regime', 'manual'), ('emit', i, 'resp', 2), ('tick', 2), ('cancel', i, 'resp'),
                                          ('deliver', 'c', None), ('deliver', 's', None), ('tick', 2)]),
+        # the canceller hands an element over and cancels in the same turn while the peer's publisher fails: the ERROR
+        # crosses the CANCEL
+        st.integers(0, 3).map(lambda i: [('regime', 'manual'), ('emit', i, 'req', 1), ('cancel', i, 'resp'), ('end', i, 'resp'),
+                                         ('tick', 2), ('deliver', 'c', None), ('deliver', 's', None), ('tick', 2)]),
         # completion deliverable in the same tick as the cancel
         st.integers(0, 3).map(lambda i: [('regime', 'manual'), ('end', i, 'resp'), ('resolve', i), ('tick', 2),
                                          ('deliver', 'c', None), ('deliver', 's', None), ('cancel', i, 'resp'), ('tick', 2)]),
@@ -91,6 +96,10 @@ def programs(draw):
     if not any(o[0] == 'cancel' for o in ops):
         ops.append(['cancel', draw(st.integers(0, 3)), 'resp'])
     ops.append(['tick', 2])
+    if draw(st.integers(0, 3)) == 0:
+        # the endpoint is closed while cancelled interactions may still be half open: the teardown must not signal
+        # the subscribers that have cancelled
+        ops += [['close', draw(st.sampled_from(['c', 's']))], ['tick', 3]]
     return {'cfg': cfg, 'inter': inter, 'ops': ops}
 
 
